@@ -12,7 +12,7 @@ import time
 from . import tlc, replay as replay_mod
 from .syntax import digest
 
-VERIF = "/verif"
+VERIF = os.path.dirname(os.path.dirname(os.path.abspath(__file__)))
 FINDINGS = os.path.join(VERIF, "known_findings.json")
 
 
